@@ -308,14 +308,9 @@ Definition strip_alias (sa : option bytes) (ta : bytes) (f : onfield) : bytes :=
   | None => f_name f
   | Some q => if qual_is q sa || bytes_eqb q ta then f_name f else q ++ dot :: f_name f
   end.
-(* the code: the field left of "=" is the stream field, the field right of it the table field *)
-Definition on_pair_code (sa : option bytes) (ta : bytes) (p : onfield * onfield) : bytes * bytes :=
+(* as found, the code was positional: the field left of "=" is the stream field, the field right of it the table field *)
+Definition on_pair_positional (sa : option bytes) (ta : bytes) (p : onfield * onfield) : bytes * bytes :=
   (strip_alias sa ta (fst p), strip_alias sa ta (snd p)).
-Definition parse_join_code (sa : option bytes) (j : jtext) : jcfg :=
-  {| j_table := jt_table j; j_left := jt_left j; j_alias := eff_alias j;
-     j_pairs := map (on_pair_code sa (eff_alias j)) (jt_on j) |}.
-Definition parse_code (q : qtext) : cfg :=
-  {| c_src_alias := q_src_alias q; c_joins := map (parse_join_code (q_src_alias q)) (q_joins q) |}.
 
 (* the meaning of the clause: "=" is symmetric, a field belongs to the side its qualifier names
    (the comment of stripAliasPrefix: "which side a pair belongs to is determined by which alias it
@@ -327,8 +322,25 @@ Definition stream_side (sa : option bytes) (ta : bytes) (f : onfield) : bool :=
 Definition swapped (sa : option bytes) (ta : bytes) (p : onfield * onfield) : bool :=
   (table_side sa ta (fst p) && negb (table_side sa ta (snd p))) ||
   (stream_side sa ta (snd p) && negb (stream_side sa ta (fst p))).
+
+(* the code (parseJoin with onFieldsSwapped; repaired, finding F56): an equality whose qualifiers say
+   table = stream is turned around before the pair is stored *)
+Definition on_pair_code (sa : option bytes) (ta : bytes) (p : onfield * onfield) : bytes * bytes :=
+  if swapped sa ta p then on_pair_positional sa ta (snd p, fst p) else on_pair_positional sa ta p.
+Definition parse_join_code (sa : option bytes) (j : jtext) : jcfg :=
+  {| j_table := jt_table j; j_left := jt_left j; j_alias := eff_alias j;
+     j_pairs := map (on_pair_code sa (eff_alias j)) (jt_on j) |}.
+Definition parse_code (q : qtext) : cfg :=
+  {| c_src_alias := q_src_alias q; c_joins := map (parse_join_code (q_src_alias q)) (q_joins q) |}.
+(* ... and the code as found *)
+Definition parse_join_asfound (sa : option bytes) (j : jtext) : jcfg :=
+  {| j_table := jt_table j; j_left := jt_left j; j_alias := eff_alias j;
+     j_pairs := map (on_pair_positional sa (eff_alias j)) (jt_on j) |}.
+Definition parse_asfound (q : qtext) : cfg :=
+  {| c_src_alias := q_src_alias q; c_joins := map (parse_join_asfound (q_src_alias q)) (q_joins q) |}.
+
 Definition on_pair_spec (sa : option bytes) (ta : bytes) (p : onfield * onfield) : bytes * bytes :=
-  if swapped sa ta p then on_pair_code sa ta (snd p, fst p) else on_pair_code sa ta p.
+  if swapped sa ta p then on_pair_positional sa ta (snd p, fst p) else on_pair_positional sa ta p.
 Definition parse_join_spec (sa : option bytes) (j : jtext) : jcfg :=
   {| j_table := jt_table j; j_left := jt_left j; j_alias := eff_alias j;
      j_pairs := map (on_pair_spec sa (eff_alias j)) (jt_on j) |}.
@@ -357,6 +369,8 @@ Definition model_run_sql (q : qtext) (regs : list reg_call) (ops : list op) : li
   let c := parse_code q in model_run c (map (resolve_reg c) regs) ops.
 Definition spec_run_sql (q : qtext) (regs : list reg_call) (ops : list op) : list out :=
   let c := parse_spec q in spec_run c (map (resolve_reg c) regs) ops.
+Definition model_run_sql_asfound (q : qtext) (regs : list reg_call) (ops : list op) : list out :=
+  let c := parse_asfound q in model_run c (map (resolve_reg c) regs) ops.
 
 (* ---------- projection of the working map (SELECT list with qualified columns) and WHERE ----------
    The projection and expression evaluators themselves are C05/C06's subject; this is the part the
